@@ -23,3 +23,4 @@ import RenetVerif.Lemmas.SrcEquiv.ConnSend
 import RenetVerif.Lemmas.SrcEquiv.ConnRecv
 import RenetVerif.Lemmas.SrcEquiv.Server
 import RenetVerif.Lemmas.SrcEquiv.NcCodec
+import RenetVerif.Lemmas.SrcEquiv.NcServer
